@@ -481,7 +481,7 @@ class DecodePath:
             if isinstance(f, ast.Subscript) and isinstance(f.value, ast.Call) and ast.unparse(f.value.func) == 'globals':
                 st['entered'] = True
                 return msg
-            if isinstance(f, ast.Name) and env.get(f.id) is FUNC:
+            if isinstance(f, ast.Name) and isinstance(env.get(f.id), A.AObj) and env[f.id].attrs.get('decode_function'):      # (also one remembered from an earlier message)
                 st['decode_args'] = [it.expr(a, env) for a in call.args]
                 return msg
             if isinstance(f, ast.Attribute) and f.attr == '_isFastPGN':
